@@ -40,9 +40,9 @@ findings.append(dict(
 
 XR = 'XarrayStream.run selects the window with ds[var].sel(time=slice(starting, ending)): an xarray label slice is closed on both ends, and the selection is only made when both bounds are given.'
 for key, what in (
-    ('xarray:table:both:wrong-rows', 'a row whose time equals `ending` is evaluated although the window is starting <= t < ending (e.g. window [t1, t3) evaluates rows 1,2,3).'),
-    ('xarray:table:starting-only:wrong-rows', 'a window with only `starting` is ignored: every row is evaluated.'),
-    ('xarray:table:ending-only:wrong-rows', 'a window with only `ending` is ignored: every row is evaluated.'),
+    ('xarray:table:both:wrong-rows:row-at-ending-included', 'a row whose time equals `ending` is evaluated although the window is starting <= t < ending (e.g. window [t1, t3) evaluates rows 1,2,3).'),
+    ('xarray:table:starting-only:wrong-rows:window-ignored', 'a window with only `starting` is ignored: every row is evaluated.'),
+    ('xarray:table:ending-only:wrong-rows:window-ignored', 'a window with only `ending` is ignored: every row is evaluated.'),
     ('xarray:table:unexpected-results', 'consequently the results carry row masks that no configured window accounts for (same construct).'),
 ):
     findings.append(dict(property='C05', rule='C05.extra' if key.endswith('results') else 'C05.rows', key=key, status='known',
@@ -64,7 +64,8 @@ findings.append(dict(
          'pressure_increasing_test(np.array([5,3,6], dtype=uint8)) -> [1,1,1] while the same values as float -> [1,3,1].',
     why_not_fixed='same root cause as the missing normalisation of pressure_increasing_test (recorded above).'))
 
-for key, rule in (('pandas:duplicate-labels:both:wrong-rows', 'C05.rows'), ('pandas:duplicate-labels:unexpected-results', 'C05.extra')):
+for key, rule in (('pandas:duplicate-labels:both:wrong-rows:window-ignored', 'C05.rows'), ('pandas:duplicate-labels:both:wrong-rows:other-rows', 'C05.rows'),
+                  ('pandas:duplicate-labels:unexpected-results', 'C05.extra')):
     findings.append(dict(
         property='C05', rule=rule, key=key, status='known',
         what='PandasStream marks the tested rows by index label (subset_indexes.loc[subset.index] = True): in a DataFrame with repeated row labels '
